@@ -217,6 +217,46 @@ func ordCanon(w *World, r *EngineResult) {
 			}
 		}
 	}
+	// every way out of the canonicaliser passes the sort: a return that is not dominated by
+	// the sorting call hands the keyword partition back in written order
+	{
+		var sortBlocks []*ssa.BasicBlock
+		for _, b := range top.Blocks {
+			for _, ins := range b.Instrs {
+				if c, ok := ins.(*ssa.Call); ok {
+					cal := c.Call.StaticCallee()
+					if cal == nil {
+						continue
+					}
+					isSort := cal.Pkg != nil && (cal.Pkg.Pkg.Path() == "sort" || cal.Pkg.Pkg.Path() == "slices")
+					if isSort || (len(cal.Blocks) > 0 && pkgShort(cal) == "eval/method_evaluator" && callsSort(cal) != nil) {
+						sortBlocks = append(sortBlocks, b)
+					}
+				}
+			}
+		}
+		bad := ""
+		for _, b := range top.Blocks {
+			rt, ok := b.Instrs[len(b.Instrs)-1].(*ssa.Return)
+			if !ok {
+				continue
+			}
+			dominated := false
+			for _, sb := range sortBlocks {
+				if sb == b || sb.Dominates(b) {
+					dominated = true
+				}
+			}
+			if !dominated {
+				bad = w.pos(instrPos(rt))
+			}
+		}
+		if bad == "" {
+			r.holds("ORD-canon", fnKey(top), "every return passes the sort", "the sorting call dominates every return of the canonicaliser", w.pos(top.Pos()))
+		} else {
+			r.violated("ORD-canon", fnKey(top), "every return passes the sort", "the return at "+bad+" is reached without the sorting call: on that path the call-site keywords keep their written order, and the binder, which walks them in step with the sorted parameter names, drops the ones that come out of order", w.pos(top.Pos()))
+		}
+	}
 	if cmpOK {
 		r.holds("ORD-canon", fnKey(top), "keyword partition sorted by key", cmpWhy, w.pos(top.Pos()))
 	} else {
